@@ -315,6 +315,7 @@ theorem C19_sequential_exception (rec : Rec) (rest : List Nat) (wt : Waiter) (e 
     processes reaped, then it awaits `spawn_processes`; its own completion (`startAfterSpawn`) is the
     continuation of that await -/
 theorem C19_start_awaits_spawn (rec : Rec) (u : Nat) (wt : Waiter) (s : State)
+    (hp : (pendingSocketEvent u s).1 = false)
     (hst : (getW u s).1.status = .stopped) (hr : (callHook u "before_start" s).1 = true) :
     startW rec u wt s =
       await rec (.spawnProcesses u) (.startAfterSpawn u) wt
@@ -323,6 +324,10 @@ theorem C19_start_awaits_spawn (rec : Rec) (u : Nat) (wt : Waiter) (s : State)
   refine ⟨?_, rfl⟩
   unfold startW
   simp only [bind]
+  have h0 : ¬ ((pendingSocketEvent u s).1 = true) := by simp [hp]
+  erw [if_neg h0]
+  have hs0 : (pendingSocketEvent u s).2 = s := rfl
+  simp only [hs0]
   have h1 : ¬ ((getW u s).1.status ≠ Status.stopped) := by simp [hst]
   erw [if_neg h1]
   have h2 : ¬ ((!(callHook u "before_start" (getW u s).snd).fst) = true) := by
@@ -551,7 +556,8 @@ theorem C19_spawn_pacing_stopped (rec : Rec) (u rem : Nat) (wt : Waiter) (s : St
     normal result only at counter 0 (`spawnLoop … 0`); at a counter `rem + 1` it either raises (the
     exception goes to the waiter), or stops the watcher (`spawn_process` returned False → `_stop`), or
     parks itself on a timer with the continuation "counter `rem`" — it never delivers `.unit` early. -/
-theorem C19_all_spawned_before_return (rec : Rec) (u : Nat) (wt : Waiter) (s : State) :
+theorem C19_all_spawned_before_return (rec : Rec) (u : Nat) (wt : Waiter) (s : State)
+    (hp : (pendingSocketEvent u s).1 = false) :
     (let w := (getW u s).1
      spawnProcesses rec u wt s =
       if w.np - (w.pids.length : Int) ≤ 0 then deliver rec wt .unit s
@@ -571,6 +577,10 @@ theorem C19_all_spawned_before_return (rec : Rec) (u : Nat) (wt : Waiter) (s : S
   intro w
   unfold spawnProcesses
   simp only [bind]
+  have h0 : ¬ ((pendingSocketEvent u s).1 = true) := by simp [hp]
+  erw [if_neg h0]
+  have hs0 : (pendingSocketEvent u s).2 = s := rfl
+  simp only [hs0]
   by_cases h : w.np - (w.pids.length : Int) ≤ 0
   · rw [if_pos h]; erw [if_pos h]; rfl
   · rw [if_neg h]; erw [if_neg h]; rfl
